@@ -51,6 +51,9 @@ def settings(r, bench, i, extreme):
 			r.choice((0, 0, 1, 20, 200))))
 	if r.random() < 0.2:
 		cmds.append("FAKE_CI %d" % r.randint(-50, 50))
+	if r.random() < 0.2:
+		# refused forms: they must leave every setting as it was
+		cmds.append(r.choice(("FAKE_DROP -1", "FAKE_DROP 2 0", "FAKE_DROP -3 -3", "SETFORMAT 16", "SETFORMAT -1", "SETFORMAT 9")))
 	r.shuffle(cmds)
 	return cmds
 
@@ -60,6 +63,9 @@ def run_config(ctx, r, idx, gen):
 	specs = [{"base_port": 5700, "name": "A"}, {"base_port": 6700, "name": "B"}]
 	if three:
 		specs.append({"base_port": 7700, "name": "C"})
+	elif r.random() < 0.4:
+		# a child transceiver of A: its settings are its own, whatever is sent to the parent
+		specs.append({"base_port": 5700, "child_of": 0, "child_idx": 1, "name": "A/1"})
 	bench = radio.Bench(r.getrandbits(30), specs)
 	n = len(specs)
 	extreme = r.random() < 0.25
@@ -76,10 +82,15 @@ def run_config(ctx, r, idx, gen):
 
 	ok = True
 	for i in range(n):
-		rx, tx = (890000, 935000) if i == 0 else (935000, 890000)
+		rx, tx = (890000, 935000) if (i == 0 or specs[i].get("child_of") is not None) else (935000, 890000)
 		ok = ok and cmd(i, "RXTUNE %d" % rx) and cmd(i, "TXTUNE %d" % tx)
 		ok = ok and cmd(i, "SETFORMAT %d" % r.choice((0, 1)))
-		ok = ok and cmd(i, "POWERON")
+		if r.random() < 0.3:
+			# an unsupported version is answered with a suggestion and must not change anything
+			ok = ok and cmd(i, "SETFORMAT %d" % r.choice((2, 3, 7, 15)))
+	for i in range(n):
+		if not bench.models[i].running:
+			ok = ok and cmd(i, "POWERON")
 	if not ok:
 		return
 	vers = tuple(m.ver for m in bench.models)
